@@ -716,8 +716,10 @@ func (e *Engine) findDigitPrefilter(haystack []byte) *Match {
 			}
 		}
 
-		// No match at this digit position, continue searching
-		pos = digitPos + 1
+		// Both verifications above are UNANCHORED searches from digitPos to the end
+		// of the haystack: when they fail there is no match at or after digitPos,
+		// and trying the next digit would only repeat the same scan.
+		return nil
 	}
 
 	return nil
@@ -759,7 +761,8 @@ func (e *Engine) findDigitPrefilterAt(haystack []byte, at int) *Match {
 			}
 		}
 
-		pos = digitPos + 1
+		// Unanchored verification failed: no match at or after digitPos (see findDigitPrefilter).
+		return nil
 	}
 
 	return nil
